@@ -8,6 +8,8 @@ From BM Require Import Bytes Utf8 Strings Tokenizer Policy Url Style Attrs Loop 
 Open Scope N_scope.
 
 Definition nonforced (a : attr) : bool := negb (forced_key (akey a)).
+Lemma attr_eta0 (a : attr) : (akey a, aval a) = a.
+Proof. destruct a; reflexivity. Qed.
 
 Lemma nf_map (f : attr -> attr) l :
   (forall a, nonforced a = true -> f a = a) -> (forall a, nonforced a = false -> nonforced (f a) = false) ->
@@ -117,7 +119,8 @@ Section Idem.
   (* the policy does not itself allow any of the forced attributes on this element *)
   Hypothesis Hforced : forall k v, forced_key k = true -> filter_attr I p elem aps (has_style_policies I p elem) (k, v) = [].
   (* the element's URL attribute carries no value pattern *)
-  Hypothesis Hurl : forall k v, url_attr_of elem = Some k -> filter_attr I p elem aps (has_style_policies I p elem) (k, v) = [(k, v)].
+  Hypothesis Hurl : forall k v u, url_attr_of elem = Some k ->
+    filter_attr I p elem aps (has_style_policies I p elem) (k, v) = [(k, v)] -> filter_attr I p elem aps (has_style_policies I p elem) (k, u) = [(k, u)].
   Hypothesis Hrw : srcRewriter p = None.
   (* net/url: a value validURL returned is returned unchanged when validated again (hypothesis U5) *)
   Hypothesis Hstable : forall raw u, valid_url I p raw = Some u -> valid_url I p u = Some u.
@@ -148,7 +151,7 @@ Section Idem.
         assert (Hk : akey a0 = k) by (unfold key_is in Eka; apply beqb_eq in Eka; exact Eka).
         split; [split|].
         * unfold nonforced in *. cbn [akey fst]. exact Hn.
-        * rewrite Hk. apply Hurl. reflexivity.
+        * rewrite Hk. apply (Hurl k (aval a0) u eq_refl). rewrite <- Hk. rewrite attr_eta0. exact Hf.
         * unfold url_pass_attr. rewrite Ek. change (key_is k (akey a0, u)) with (key_is k a0). rewrite Eka. cbn [aval snd]. rewrite (Hstable _ _ Ev), Hrw, Eu. reflexivity.
       + destruct Ha as [<-|[]]. split; [split; assumption|]. unfold url_pass_attr. rewrite Ek, Eka. reflexivity.
     - destruct Ha as [<-|[]]. split; [split; assumption|]. unfold url_pass_attr. rewrite Ek. reflexivity.
@@ -241,11 +244,23 @@ Section Decide.
                 end
     | None => true
     end.
+  Definition unpatterned_in (k : bytes) (tbl : amap (list (attr_policy M))) : bool :=
+    match lookup k tbl with
+    | Some l => existsb (fun ap => match ap with None => true | Some _ => false end) l
+    | None => false
+    end.
+  (* the verdict on the element's URL attribute does not depend on its value: a rule without a pattern on the element or
+     globally, or no rule at all *)
+  Definition url_free_b (elem : bytes) (aps : amap (list (attr_policy M))) : bool :=
+    match url_attr_of elem with
+    | Some k => unpatterned_in k aps || unpatterned_in k (globalAttrs p) || (negb (has_key k aps) && negb (has_key k (globalAttrs p)))
+    | None => true
+    end.
   Definition no_sandbox_b (elem : bytes) : bool :=
     negb (beqb elem (B"iframe")) || match requireSandbox p with None => true | Some _ => false end.
   (* the element's attribute list is a fixpoint of sanitizeAttrs after one pass *)
   Definition elem_stable_b (elem : bytes) (aps : amap (list (attr_policy M))) : bool :=
-    negb (linkable elem) || (forced_rejected_b aps && url_unpatterned_b elem aps && no_sandbox_b elem).
+    negb (linkable elem) || (forced_rejected_b aps && url_free_b elem aps && no_sandbox_b elem).
 
   Lemma forced_key_in k : forced_key k = true -> In k forced_keys.
   Proof.
@@ -283,6 +298,33 @@ Section Decide.
     rewrite E. reflexivity.
   Qed.
 
+  Lemma unpatterned_accepts k tbl v : unpatterned_in k tbl = true -> rules_accept I tbl (k, v) = true.
+  Proof.
+    unfold unpatterned_in, rules_accept. cbn [akey fst aval snd]. destruct (lookup k tbl) as [l|]; [|discriminate].
+    intros H. apply existsb_exists in H as (ap & Hin & Hap). apply existsb_exists. exists ap. split; [exact Hin|].
+    destruct ap; [discriminate | reflexivity].
+  Qed.
+
+  Lemma url_unpatterned_free elem aps : url_unpatterned_b elem aps = true -> url_free_b elem aps = true.
+  Proof.
+    unfold url_unpatterned_b, url_free_b, unpatterned_in. destruct (url_attr_of elem) as [k|]; [|reflexivity].
+    intros H. rewrite H. reflexivity.
+  Qed.
+
+  Lemma url_free_sound elem aps hsp : url_free_b elem aps = true ->
+    forall k v u, url_attr_of elem = Some k -> filter_attr I p elem aps hsp (k, v) = [(k, v)] -> filter_attr I p elem aps hsp (k, u) = [(k, u)].
+  Proof.
+    intros Hb k v u Hk. unfold url_free_b in Hb. rewrite Hk in Hb. unfold filter_attr. cbn [akey fst].
+    destruct (allowDataAttributes p && is_data_attribute k); [reflexivity|].
+    rewrite (url_key_not_style elem k v Hk), (url_key_not_style elem k u Hk). cbn [andb].
+    apply orb_true_iff in Hb as [Hb|Hb]; [apply orb_true_iff in Hb as [Hb|Hb]|].
+    - intros _. rewrite (unpatterned_accepts k aps u Hb). reflexivity.
+    - intros _. destruct (rules_accept I aps (k, u)); [reflexivity|]. rewrite (unpatterned_accepts k _ u Hb). reflexivity.
+    - apply andb_true_iff in Hb as [H1 H2]. apply negb_true_iff in H1, H2. unfold has_key in H1, H2.
+      unfold rules_accept. cbn [akey fst]. destruct (lookup k aps); [discriminate|]. destruct (lookup k (globalAttrs p)); [discriminate|].
+      discriminate.
+  Qed.
+
   Lemma no_sandbox_sound elem : no_sandbox_b elem = true -> forall l, sandbox_pass p elem l = l.
   Proof.
     intros H l. unfold sandbox_pass. unfold no_sandbox_b in H. destruct (requireSandbox p); [|reflexivity].
@@ -301,7 +343,7 @@ Section Decide.
       { intros l. unfold clean_attrs. destruct l; reflexivity. }
       rewrite !E. apply sanitize_attrs_idem_forced_rejected; auto.
       + apply forced_rejected_sound; assumption.
-      + apply url_unpatterned_sound; assumption.
+      + apply url_free_sound; assumption.
       + apply no_sandbox_sound; exact H3.
     - apply clean_attrs_idem_plain; assumption.
   Qed.
